@@ -23,4 +23,4 @@ INIT MCInit
 NEXT MCNext
 CHECK_DEADLOCK FALSE
 VIEW View
-INVARIANTS C08_TruthfulSuccess C08_TruthfulFailure C08_NoHang C08_ResponseContent
+INVARIANTS C08_TruthfulSuccess C08_TruthfulFailure C08_NoHang C08_ResponseContent Cover
